@@ -4,6 +4,8 @@ use crate::infra::*;
 pub mod pure;
 pub mod envp;
 pub mod memfs;
+pub mod wrap;
+pub mod macros;
 
 pub struct Prop {
     pub id: &'static str,
@@ -24,6 +26,8 @@ pub fn registry() -> Vec<Prop> {
     v.extend(pure::props());
     v.extend(envp::props());
     v.extend(memfs::props());
+    v.extend(wrap::props());
+    v.extend(macros::props());
     v
 }
 
